@@ -306,7 +306,7 @@ hs!(q_hs_a_s3a1_s5a16_n2, r1_hs_b_s3a1_s5a16_n2, S3a1, S5a16, 2, S3a1(bytes()), 
 hs!(r1_hs_a_s33a32_u8_n3, q_hs_b_s33a32_u8_n3, S33a32, u8, 3, S33a32(bytes()), kani::any());
 hs!(r2_hs_a_unit_s3a2_n3, r2_hs_b_unit_s3a2_n3, (), S3a2, 3, (), S3a2(bytes()));
 hs!(t_hs_a_u16_s12a4_n1, t_hs_b_u16_s12a4_n1, u16, S12a4, 1, kani::any(), S12a4(bytes()));
-hs!(t_hs_a_zst16_u8_n2, t_hs_b_zst16_u8_n2, Zst16, u8, 2, Zst16, kani::any());
+hs!(q_hs_a_zst16_u8_n2, t_hs_b_zst16_u8_n2, Zst16, u8, 2, Zst16, kani::any());
 hs!(t_hs_a_s1a64_s17a16_n1, t_hs_b_s1a64_s17a16_n1, S1a64, S17a16, 1, S1a64(bytes()), S17a16(bytes()));
 hs!(t_hs_a_u8_u32_n3, t_hs_b_u8_u32_n3, u8, u32, 3, kani::any(), kani::any());
 hs!(t_hs_a_u64_u8_n0, t_hs_b_u64_u8_n0, u64, u8, 0, kani::any(), kani::any());
